@@ -14,6 +14,7 @@
 package main
 
 import (
+	"math/rand"
 	"context"
 	"encoding/json"
 	"errors"
@@ -191,93 +192,206 @@ func stress(dir string, seed int64, runs, workers, ops int, table *enc.Table, tr
 			conc.Uninstall()
 			return // the engine is wedged; nothing further can be trusted in this process
 		}
-		conc.Uninstall()
-		if n := sched.Stale; n > 0 {
-			finding("serial", "a writer published on top of a catalog that was not the base of its transaction (lost update)", V{"run": run, "count": n})
-		}
-		final := base.Engine.Catalog()
-		probe(base.Client, false, "after a stress run", V{"run": run})
-		// write the records: publishes in version order, each validated at its linearization point
-		cache := dbt.NewObsCache(base)
-		type pub struct {
-			pre, post *lungo.Catalog
-		}
-		var pubs []pub
-		for _, wk := range ws {
-			for _, f := range wk.Env.Findings {
-				finding(fmt.Sprint(f["kind"]), fmt.Sprint(f["what"]), f)
-			}
-			for _, rec := range wk.Recs {
-				if calls, ok := rec["calls"].([]dbt.Call); ok {
-					// a session transaction
-					results := rec["results"].([]V)
-					pre, _ := rec["pubpre"].(*lungo.Catalog)
-					post, _ := rec["pubpost"].(*lungo.Catalog)
-					baseCat, _ := rec["base"].(*lungo.Catalog)
-					if !rec["published"].(bool) {
-						pre, post = baseCat, baseCat
-					} else {
-						pubs = append(pubs, pub{pre, post})
-					}
-					if pre == nil {
-						continue
-					}
-					wk.Env.EmitSeq(cache, calls, results, pre, post, rec["committed"].(bool))
-					continue
-				}
-				c := rec["call"].(dbt.Call)
-				res, _ := rec["res"].(V)
-				if res == nil {
-					continue
-				}
-				var pre, post *lungo.Catalog
-				switch {
-				case rec["published"].(bool):
-					pre, post = rec["pubpre"].(*lungo.Catalog), rec["pubpost"].(*lungo.Catalog)
-					pubs = append(pubs, pub{pre, post})
-				case rec["began"].(bool):
-					pre = rec["base"].(*lungo.Catalog)
-					post = pre
-				case rec["read"].(*lungo.Catalog) != nil:
-					pre = rec["read"].(*lungo.Catalog)
-					post = pre
-				default:
-					continue
-				}
-				wk.Env.EmitCall(cache, c, res, pre, post, "worker", nil)
-			}
-		}
-		// the published versions form one chain that ends in the current catalog
-		next := map[*lungo.Catalog]*lungo.Catalog{}
-		for _, p := range pubs {
-			if _, dup := next[p.pre]; dup {
-				finding("serial", "two commits were published on top of the same catalog", V{"run": run})
-			}
-			next[p.pre] = p.post
-		}
-		if len(pubs) > 0 {
-			posts := map[*lungo.Catalog]bool{}
-			for _, p := range pubs {
-				posts[p.post] = true
-			}
-			var start *lungo.Catalog
-			for _, p := range pubs {
-				if !posts[p.pre] {
-					start = p.pre
-				}
-			}
-			cur, n := start, 0
-			for next[cur] != nil && n <= len(pubs) {
-				cur = next[cur]
-				n++
-			}
-			if n != len(pubs) || cur != final {
-				finding("serial", "the published catalogs do not form one chain ending in the current catalog", V{"run": run, "chain": n, "commits": len(pubs)})
-			}
-		}
-		trace.Write(V{"fn": "proto", "hist": run, "events": sched.ProtoEvents(), "quiescent": true})
-		base.Close()
+		finishRun(run, base, sched, ws, trace)
 	}
+}
+
+// systematic: small scenarios (2-3 actors, 1-2 calls each) under the controlled scheduler; the interleavings at the
+// scheduling points are enumerated depth-first up to maxSched schedules per scenario.  Every run is recorded and
+// judged like a stress run (each call at its linearization point, publication chain, protocol events).
+func systematic(dir string, seed int64, maxSched, randomSched int, table *enc.Table, trace *util.NDJSON) (schedules int) {
+	type program func(w *conc.Worker, id int)
+	inc := func(w *conc.Worker, id int) {
+		w.Do(w.Env.Update("d.acc", false, d("_id", int32(1)), d("$inc", d("n", int32(1))), false, nil))
+	}
+	fam := func(w *conc.Worker, id int) {
+		w.Do(w.Env.FindOneAndUpdate("d.acc", d("_id", int32(1)), d("$inc", d("n", int32(1))), nil, nil, false, true, nil))
+	}
+	txnCommit := func(w *conc.Worker, id int) {
+		w.DoTxn([]dbt.Call{w.Env.Update("d.acc", false, d("_id", int32(1)), d("$inc", d("n", int32(10))), false, nil),
+			w.Env.Update("d.acc", false, d("_id", int32(2)), d("$inc", d("n", int32(-10))), false, nil)}, false)
+	}
+	txnAbort := func(w *conc.Worker, id int) {
+		w.DoTxn([]dbt.Call{w.Env.Update("d.acc", false, d("_id", int32(1)), d("$inc", d("n", int32(100))), false, nil)}, true)
+	}
+	txnNoop := func(w *conc.Worker, id int) {
+		w.DoTxn([]dbt.Call{w.Env.Update("d.acc", false, d("_id", int32(2)), d("$inc", d("n", int32(5))), false, nil),
+			w.Env.Update("d.acc", false, d("_id", int32(99)), d("$set", d("m", int32(1))), false, nil)}, false)
+	}
+	uniq := func(w *conc.Worker, id int) {
+		w.Do(w.Env.Update("d.acc", false, d("_id", int32(1+id)), d("$set", d("u", int32(7))), false, nil)) // only one may win
+	}
+	read := func(w *conc.Worker, id int) {
+		w.Do(w.Env.Find("d.acc", d(), d("_id", int32(1)), nil, 0, 0))
+		w.Do(w.Env.Count("d.acc", d("n", d("$gte", int32(1))), 0, 0))
+	}
+	twoWrites := func(w *conc.Worker, id int) {
+		w.Do(w.Env.Update("d.acc", false, d("_id", int32(1)), d("$inc", d("n", int32(1))), false, nil))
+		w.Do(w.Env.InsertOne("d.log", d("_id", int32(id))))
+	}
+	del := func(w *conc.Worker, id int) {
+		w.Do(w.Env.Delete("d.acc", false, d("_id", int32(1))))
+	}
+	scenarios := [][]program{{inc, inc}, {inc, fam, inc}, {txnCommit, inc}, {txnCommit, txnCommit}, {txnAbort, inc}, {txnNoop, fam}, {uniq, uniq}, {txnCommit, read}, {twoWrites, twoWrites},
+		{del, inc}, {txnCommit, del}, {txnAbort, txnCommit, inc}}
+	run := 0
+	for si, sc := range scenarios {
+		var prefix []int
+		rnd := rand.New(rand.NewSource(seed*100 + int64(si)))
+		for n := 0; n < maxSched+randomSched; n++ {
+			g := gen.New(seed)
+			sched := conc.NewSched(seed, 0)
+			ctrl := conc.NewController()
+			if n >= maxSched || prefix == nil && n > 0 {
+				// the depth-first budget is used up (or the tree is exhausted): seeded random schedules
+				if n < maxSched {
+					break
+				}
+				prefix = nil
+				ctrl.Rand = rnd
+			}
+			sched.Ctrl = ctrl
+			base := dbt.Open(table, trace, g, nil)
+			base.Hist = 5000 + run
+			run++
+			for k := 1; k <= 3; k++ {
+				base.Client.Database("d").Collection("acc").InsertOne(base.Ctx, d("_id", int32(k), "n", int32(0)))
+			}
+			base.Client.Database("d").Collection("acc").Indexes().CreateOne(base.Ctx, dbt.MongoIndex(d("u", int32(1)), true, d("u", d("$exists", true))))
+			sched.Install()
+			var ws []*conc.Worker
+			var wg sync.WaitGroup
+			for id, prog := range sc {
+				env := *base
+				env.Findings = nil
+				env.G = gen.New(seed + int64(id))
+				wk := &conc.Worker{Env: &env, Sched: sched}
+				ws = append(ws, wk)
+				wg.Add(1)
+				go func(id int, prog program, wk *conc.Worker) {
+					defer wg.Done()
+					defer ctrl.Finish()
+					defer func() { recover() }()
+					ctrl.Register(id)
+					prog(wk, id)
+				}(id, prog, wk)
+			}
+			ctrl.Run(len(sc), prefix, 3*time.Millisecond, 10*time.Second)
+			if ctrl.Stuck {
+				finding("wedge", "a schedule of the controlled scenario does not finish: the actors wait for each other", V{"scenario": si, "schedule": ctrl.Used, "points": ctrl.Points, "stacks": stacks()})
+				ctrl.ReleaseAll()
+				conc.Uninstall()
+				return schedules
+			}
+			ok := waitAll(&wg, 20*time.Second)
+			sched.Quiet(true)
+			if !ok {
+				finding("wedge", "the actors of a controlled scenario did not return", V{"scenario": si, "schedule": ctrl.Used, "stacks": stacks()})
+				conc.Uninstall()
+				return schedules
+			}
+			schedules++
+			finishRun(base.Hist, base, sched, ws, trace)
+			if ctrl.Rand == nil {
+				prefix = conc.Next(ctrl.Used, ctrl.Alts)
+				if prefix == nil {
+					n = maxSched - 1 // the tree is exhausted: go on with the random schedules
+				}
+			}
+		}
+	}
+	return schedules
+}
+
+// finishRun: after the workers have returned - publication chain, the records of every call at its linearization
+// point, the protocol events.
+func finishRun(run int, base *dbt.Env, sched *conc.Sched, ws []*conc.Worker, trace *util.NDJSON) {
+	conc.Uninstall()
+	if n := sched.Stale; n > 0 {
+		finding("serial", "a writer published on top of a catalog that was not the base of its transaction (lost update)", V{"run": run, "count": n})
+	}
+	final := base.Engine.Catalog()
+	probe(base.Client, false, "after a stress run", V{"run": run})
+	// write the records: publishes in version order, each validated at its linearization point
+	cache := dbt.NewObsCache(base)
+	type pub struct {
+		pre, post *lungo.Catalog
+	}
+	var pubs []pub
+	for _, wk := range ws {
+		for _, f := range wk.Env.Findings {
+			finding(fmt.Sprint(f["kind"]), fmt.Sprint(f["what"]), f)
+		}
+		for _, rec := range wk.Recs {
+			if calls, ok := rec["calls"].([]dbt.Call); ok {
+				// a session transaction
+				results := rec["results"].([]V)
+				pre, _ := rec["pubpre"].(*lungo.Catalog)
+				post, _ := rec["pubpost"].(*lungo.Catalog)
+				baseCat, _ := rec["base"].(*lungo.Catalog)
+				if !rec["published"].(bool) {
+					pre, post = baseCat, baseCat
+				} else {
+					pubs = append(pubs, pub{pre, post})
+				}
+				if pre == nil {
+					continue
+				}
+				wk.Env.EmitSeq(cache, calls, results, pre, post, rec["committed"].(bool))
+				continue
+			}
+			c := rec["call"].(dbt.Call)
+			res, _ := rec["res"].(V)
+			if res == nil {
+				continue
+			}
+			var pre, post *lungo.Catalog
+			switch {
+			case rec["published"].(bool):
+				pre, post = rec["pubpre"].(*lungo.Catalog), rec["pubpost"].(*lungo.Catalog)
+				pubs = append(pubs, pub{pre, post})
+			case rec["began"].(bool):
+				pre = rec["base"].(*lungo.Catalog)
+				post = pre
+			case rec["read"].(*lungo.Catalog) != nil:
+				pre = rec["read"].(*lungo.Catalog)
+				post = pre
+			default:
+				continue
+			}
+			wk.Env.EmitCall(cache, c, res, pre, post, "worker", nil)
+		}
+	}
+	// the published versions form one chain that ends in the current catalog
+	next := map[*lungo.Catalog]*lungo.Catalog{}
+	for _, p := range pubs {
+		if _, dup := next[p.pre]; dup {
+			finding("serial", "two commits were published on top of the same catalog", V{"run": run})
+		}
+		next[p.pre] = p.post
+	}
+	if len(pubs) > 0 {
+		posts := map[*lungo.Catalog]bool{}
+		for _, p := range pubs {
+			posts[p.post] = true
+		}
+		var start *lungo.Catalog
+		for _, p := range pubs {
+			if !posts[p.pre] {
+				start = p.pre
+			}
+		}
+		cur, n := start, 0
+		for next[cur] != nil && n <= len(pubs) {
+			cur = next[cur]
+			n++
+		}
+		if n != len(pubs) || cur != final {
+			finding("serial", "the published catalogs do not form one chain ending in the current catalog", V{"run": run, "chain": n, "commits": len(pubs)})
+		}
+	}
+	trace.Write(V{"fn": "proto", "hist": run, "events": sched.ProtoEvents(), "quiescent": true})
+	base.Close()
 }
 
 // ---------------------------------------------------------------------------
@@ -652,6 +766,9 @@ func main() {
 		faults(dir, seed, arg(4, 20), table, trace)
 	case "guided":
 		guided(dir, seed, table, trace)
+	case "systematic":
+		n := systematic(dir, seed, arg(4, 40), arg(5, 40), table, trace)
+		out.Encode(V{"kind": "schedules", "n": n})
 	default:
 		util.Die("unknown mode")
 	}
